@@ -105,7 +105,7 @@ impl EightChar {
     // 时辰地支转时刻
     let h: usize = self.hour.get_earth_branch().get_index() * 2;
     let mut hours: Vec<usize> = vec![];
-    hours.push(0);
+    hours.push(h);
     if h == 0 {
       hours.push(23);
     }
